@@ -1,6 +1,6 @@
 SPECIFICATION Spec
 CONSTANTS
-  Scheme = "cmdsig"
+  Schemes = {"cmdsig"}
   MaxTamper = 3
   HashModel = "tuple"
   PLens = {0}
